@@ -3,8 +3,6 @@ import json, os
 V = os.path.dirname(os.path.dirname(os.path.abspath(__file__)))
 props = [json.loads(l) for l in open(os.path.join(V, 'properties.jsonl'))]
 NA = {
- 'C01': 'byte-for-byte round trip over all contents/dedup structures/configurations is a relation between runtime values (segment index arithmetic); no structural necessary condition stands for it beyond those decided under C11, C15, C16 (DESIGN.md §7)',
- 'C02': 'equality of recomputed hashes, byte sums and SHA-256 with recorded values is numerical; the only structural residue does not decide any stated clause (DESIGN.md §7)',
 }
 PENDING = 'static-analysis rule set for this property is not armed yet in this round (see DESIGN.md §5); not claimed until its check exists'
 TRUST = ("Trusted: rustc's MIR construction/type checker (mir_promoted bodies, nightly), the xetlint extractor, documented semantics of std/tokio "
